@@ -22,8 +22,8 @@ LABEL_RULES = [
     (r"Cancel\((\d+)\)", "cancel:c{1}"),
 ]
 # X models the code as it is in /repo: set to True once the corresponding repair is committed there.
-FIX_F4 = False   # resolve(): a cancelled resolve goroutine closes its done channel without waiting for its predecessor
-FIX_F5 = False   # AddRef(nil) on a resolved container calls the nil callback
+FIX_F4 = True   # resolve(): a cancelled resolve goroutine closes its done channel without waiting for its predecessor
+FIX_F5 = True   # AddRef(nil) on a resolved container calls the nil callback
 # for trials against a scratch copy with the proposed fixes applied: VERIF_RC_FIX=45 (digits = repaired defects)
 if "VERIF_RC_FIX" in os.environ:
     FIX_F4, FIX_F5 = "4" in os.environ["VERIF_RC_FIX"], "5" in os.environ["VERIF_RC_FIX"]
@@ -69,7 +69,7 @@ def models(wd, tier, seed):
     def one(name):
         sc = json.load(open(scen_path(name)))
         big = name in BIG
-        r, paths, nn = vlib.model_and_schedules(wd, name, mk_factory(sc), LABEL_RULES, seed, cap=sc.get("cap", 600) if quick else 6000,
+        r, paths, nn = vlib.model_and_schedules(wd, name, mk_factory(sc), LABEL_RULES, seed, cap=sc.get("cap", 600) if quick else 5000,
                                                 invariant_cfg={"specdirs": ["refcount", "lib"]}, graph_cfg=None,
                                                 workers=vlib.NCPU if big else wk, timeout=1500, dump_graph=not big)
         return name, sc, r, paths, nn
@@ -90,7 +90,7 @@ def models(wd, tier, seed):
 
 
 FAM = dict(driver="refcount", specdirs=["refcount", "lib"], monitor="RefCountPTrace", property_of=PROPERTY_OF, models=models,
-           n_random={"quick": 1200, "thorough": 25000},
+           n_random={"quick": 1200, "thorough": 20000},
            x_specs=["refcount/RefCount.tla"], p_monitor="refcount/RefCountP.tla",
            assumptions=["RefCountP encodes the statements with the readings listed in its header comment "
                         "(invalidated = released() called or context changed; 'given' = callback received the value; "
